@@ -11,6 +11,7 @@ MARK = '## 12. Seeded changes and the checks that catch them'
 
 def main() -> None:
     rows = []
+    stats: dict = {}
     for mp in sorted(glob.glob(os.path.join(VERIF, 'seeded', '*', 'meta.json'))):
         m = json.load(open(mp))
         d = os.path.dirname(mp)
@@ -19,26 +20,41 @@ def main() -> None:
         notes = open(os.path.join(d, 'notes.md')).read() if os.path.exists(os.path.join(d, 'notes.md')) else ''
         first = next((l.strip('# ').strip() for l in notes.splitlines() if l.strip()), '')
         first = re.sub(r'^C\d+\s*[/-]?\s*variant\s*\w\s*[-:—]?\s*', '', first, flags=re.I)
-        caught = ', '.join(f"{p} ({'/'.join(r.split('.')[1] for r in m['expected_rules'][p])})" for p in m['caught_by']) or '**missed** (value-level, see below)'
+        caught = ', '.join(f"{p} ({'/'.join(r.split('.')[1] for r in m['expected_rules'][p])})" for p in m['caught_by'])
+        own = m['property'] in m['caught_by']
+        und = m.get('undecided_by', [])
+        if not caught:
+            caught = ('undecided (exit 2) by ' + ', '.join(und)) if und else '**missed**'
+        elif not own:
+            caught += ' - not by its own check' + (f' (which is undecided)' if m['property'] in und else '')
+        rnd = {'a': 1, 'b': 1, 'c': 2, 'd': 2, 'e': 5, 'f': 5, 'g': 6}.get(m['id'][-1], 0)
+        stats.setdefault(rnd, [0, 0, 0, 0, 0])
+        stats[rnd][0] += 1
+        stats[rnd][1] += own
+        stats[rnd][2] += bool(m['caught_by']) and not own
+        stats[rnd][3] += (not m['caught_by']) and bool(und)
+        stats[rnd][4] += (not m['caught_by']) and not und
         rows.append(f"| {m['id']} | {', '.join(files)} | {first[:110].replace('|', '/')} | {caught} |")
-    ncaught = sum('missed' not in r for r in rows)
+    ncaught = sum(v[1] + v[2] for v in stats.values())
+    summary = '\n'.join(f'| {r} | {v[0]} | {v[1]} | {v[2]} | {v[3]} | {v[4]} |' for r, v in sorted(stats.items()))
     text = f"""{MARK}
 
 {len(rows)} changes written by independent sub-agents (property text + scratch worktree only), each confirmed by me in a scratch
-worktree (demo passes clean / fails patched, whole suite still green). {ncaught} are reported as a VIOLATION by at least one check
-(every one of them by the check of the property it was written for, or by a check whose obligation that property re-uses);
-the others are listed as missed with the reason. Regenerate with `/venv/bin/python -m sa.seedtable`.
+worktree (demo passes clean / fails patched, whole suite still green). Rounds 1-2 are small subtle edits; rounds 5-6 are
+refactoring commits (10-50 changed lines, new helpers / records / tables) with one wrong detail, whose repaired twins are in
+`/verif/refactors`. {ncaught} are reported as a VIOLATION by at least one check. Regenerate with `/venv/bin/python -m sa.seedtable`
+after `tools/refresh_meta.py`.
 
-| seed | files | change | caught by (rule) |
+| round | seeds | VIOLATION by the check of their own property | VIOLATION by another check only | undecided (exit 2) | missed |
+|---|---|---|---|---|---|
+{summary}
+
+"Undecided" is what a structural rule answers on code written with names it does not know (section 11, sixth round), or what
+an evaluation answers when it meets a construct it does not model: the check exits 2 and says why; it never says "holds".
+
+| seed | files | change | outcome |
 |---|---|---|---|
-""" + '\n'.join(rows) + """
-
-Missed, and why they stay missed: the misses are changes to *index / string arithmetic whose correctness is value-level*
-(the permutation used to lay diagonal values along an unsorted axis tuple; the letter swap of the einsum subscripts turned
-into a slice reversal; ...). Sections 5 and 7 declare exactly these parts "not decided": no abstract domain in reach captures
-them without enumerating inputs, and a frozen-source proxy would fire on behaviour-preserving rewrites. They are recorded
-here rather than papered over.
-"""
+""" + '\n'.join(rows) + "\n"
     path = os.path.join(VERIF, 'DESIGN.md')
     s = open(path).read()
     if MARK in s:
